@@ -7,7 +7,11 @@
 // stdin:  {"constraints": [int...]}
 // stdout: {"base": sql, "versionFilter": sql, "kindMarker": .., "cpe": text of the distribution CPE,
 //
-//	"constraints": [{"c": int, "sql": .., "err": .., "noDist": "ok|err|panic", "noRepo": ..}]}
+//	"constraints": [{"c": int, "sql": .., "err": .., "noDist": "ok|err|panic", "noRepo": ..}],
+//	"source": {"base": sql for the record with a source package, "nilSource": {"sql","state"} for the plain record,
+//	           "empty": {"<string field of the package or its source>": {"sql","state"} with that field empty}}}
+//
+// ("source" is what Gen/JoinQuery reads: the package / source-package clause and its guards.)
 package main
 
 import (
@@ -43,6 +47,34 @@ func record() *claircore.IndexRecord {
 	}
 }
 
+// sourceRecord is record() with a source package whose fields hold markers too.
+func sourceRecord() *claircore.IndexRecord {
+	r := record()
+	r.Package.Source = &claircore.Package{
+		ID: mark("Package.Source.ID"), Name: mark("Package.Source.Name"), Version: mark("Package.Source.Version"), Kind: mark("Package.Source.Kind"),
+		Module: mark("Package.Source.Module"), Arch: mark("Package.Source.Arch"), PackageDB: mark("Package.Source.PackageDB"),
+		RepositoryHint:    mark("Package.Source.RepositoryHint"),
+		NormalizedVersion: claircore.Version{Kind: mark("Package.Source.NormalizedVersion.Kind")},
+	}
+	return r
+}
+
+// pkgFields: the string fields of a package, as setters.
+var pkgFields = []struct {
+	name string
+	set  func(*claircore.Package, string)
+}{
+	{"ID", func(p *claircore.Package, s string) { p.ID = s }},
+	{"Name", func(p *claircore.Package, s string) { p.Name = s }},
+	{"Version", func(p *claircore.Package, s string) { p.Version = s }},
+	{"Kind", func(p *claircore.Package, s string) { p.Kind = s }},
+	{"Module", func(p *claircore.Package, s string) { p.Module = s }},
+	{"Arch", func(p *claircore.Package, s string) { p.Arch = s }},
+	{"PackageDB", func(p *claircore.Package, s string) { p.PackageDB = s }},
+	{"RepositoryHint", func(p *claircore.Package, s string) { p.RepositoryHint = s }},
+	{"NormalizedVersion.Kind", func(p *claircore.Package, s string) { p.NormalizedVersion.Kind = s }},
+}
+
 func build(r *claircore.IndexRecord, opts *datastore.GetOpts) (sql, errs, state string) {
 	defer func() {
 		if x := recover(); x != nil {
@@ -73,6 +105,10 @@ func main() {
 		NoRepo string `json:"noRepo"`
 		Twice  bool   `json:"twice"` // naming the constraint twice gives the same text as naming it once
 	}
+	type built struct {
+		SQL   string `json:"sql"`
+		State string `json:"state"`
+	}
 	var out struct {
 		Base          string `json:"base"`
 		VersionFilter string `json:"versionFilter"`
@@ -80,6 +116,11 @@ func main() {
 		DistCPE       string `json:"distCPE"`
 		RepoCPE       string `json:"repoCPE"`
 		Constraints   []one  `json:"constraints"`
+		Source        struct {
+			Base      string           `json:"base"`
+			NilSource built            `json:"nilSource"`
+			Empty     map[string]built `json:"empty"`
+		} `json:"source"`
 	}
 	out.Base, _, _ = build(record(), &datastore.GetOpts{})
 	out.VersionFilter, _, _ = build(record(), &datastore.GetOpts{VersionFiltering: true})
@@ -99,6 +140,22 @@ func main() {
 		two, _, _ := build(record(), &datastore.GetOpts{Matchers: []driver.MatchConstraint{driver.MatchConstraint(c), driver.MatchConstraint(c)}})
 		o.Twice = two == o.SQL
 		out.Constraints = append(out.Constraints, o)
+	}
+	// the package / source-package clause and its guards (Gen/JoinQuery)
+	out.Source.Base, _, _ = build(sourceRecord(), &datastore.GetOpts{})
+	out.Source.NilSource.SQL, _, out.Source.NilSource.State = build(record(), &datastore.GetOpts{})
+	out.Source.Empty = map[string]built{}
+	for _, f := range pkgFields {
+		r := sourceRecord()
+		f.set(r.Package, "")
+		var b built
+		b.SQL, _, b.State = build(r, &datastore.GetOpts{})
+		out.Source.Empty["Package."+f.name] = b
+		r = sourceRecord()
+		f.set(r.Package.Source, "")
+		b = built{}
+		b.SQL, _, b.State = build(r, &datastore.GetOpts{})
+		out.Source.Empty["Package.Source."+f.name] = b
 	}
 	json.NewEncoder(os.Stdout).Encode(out)
 }
